@@ -144,6 +144,13 @@ def cases(ctx):
                         "src": (f"*={ORG[mapping][0]:#08x}\nstart:\njmp.w next\nnext:\nbra start\n.dw next & 0xFFFF\n.scope zz_s {{\nzz_l:\nzz_v = 3\n}}\n"
                                 ".dl zz_s.zz_l\n.db zz_s.zz_v\n{\nzz_in:\n.dw zz_in & 0xFFFF\n}\n"),
                         "api": True, "cli": True, "dump_symbols": True, "symfile": True, "spec": {"t": "c12"}})
+            # ... also when top-level code in front of the first scope uses names that the LAST scope of the program defines too
+            head = f"*={ORG[mapping][0]:#08x}\nzz_delay = 5\njmp.w zz_done\n.dw zz_done & 0xFFFF\n.db zz_delay\nzz_done:\nnop\n.macro zz_wait(zz_delay) {{\n.db zz_delay\n}}\n"
+            for name, tail in (("block-last", "zz_wait(9)\n{\nnop\nzz_done:\nzz_delay = 7\n.db zz_delay\nrts\n}\n"),
+                               ("macro-last", "{\nnop\nzz_done:\nrts\n}\nzz_wait(9)\n"),
+                               ("scope-last", "zz_wait(9)\n.scope zz_en {\nzz_delay = 8\nzz_done:\nrts\n}\n")):
+                out.append({"kind": f"dump-symbols:{name}:{fmt}:{mapping}", "rom": mapping, "mapping": mapping, "format": fmt, "copier": False,
+                            "defines": {}, "src": head + tail, "api": True, "cli": True, "dump_symbols": True, "symfile": True, "spec": {"t": "c12"}})
     # the main source in a sub-directory, files it reads named relative to the working directory (a file of the same
     # relative name beside the source is NOT the one meant)
     for fmt in ("ips", "sfc"):
